@@ -5,7 +5,8 @@
   Property theorems only.  Model: `Model/PyPrint.lean` (PythonTranslator as written: `prE`/`toks`, `codePrio`; the
   reference parser `pE`/`parseFuel` of the Python expression grammar).  Proof: `Lemmas/PyPrint*.lean`.
 -/
-import PonyVerif.Lemmas.PyPrint6
+import PonyVerif.Lemmas.PyPrint7
+import PonyVerif.Lemmas.PreTrans
 namespace PonyVerif.Props.C04
 open PonyVerif.Model.PyPrint
 
@@ -21,6 +22,11 @@ open PonyVerif.Model.PyPrint
 theorem C04_roundtrip (e : Expr) (h : Ok e) (fuel : Nat) (hf : cost e + 20 ≤ fuel) :
     parseFuel fuel (toks e) = some (norm e) :=
   roundtrip e h fuel hf
+
+/-- the same for the very function the driver runs on every case of the tie (`parse`, fuel `400 * tokens + 400`): no fuel
+    parameter is left in the statement -/
+theorem C04_roundtrip_parse (e : Expr) (h : Ok e) : parse (toks e) = some (norm e) :=
+  roundtrip_parse e h
 
 /-- same, in a context: at every grammar level that admits the priority the code assigns, followed by any token that
     does not continue an expression of that level, the parser consumes exactly the printed expression -/
@@ -148,5 +154,29 @@ theorem C04_negative_constant_attr (s a : String) :
 theorem C04_one_tuple_subscript (d k : String) :
     toks (.subscriptT (.name d) (.cons (.ie (.name k)) .nil)) = [.name d, .lbrk, .name k, .comma, .rbrk] := by
   simp [toks_subscriptT_cons, primT, codePrio, toks_name, tIdx_ie, tIdxs_nil]
+
+/-! ### which parts of a query are evaluated in the caller's scope (PreTranslator, `Model/PreTrans.lean`) -/
+
+open PonyVerif.Model.PreTrans in
+/-- For every tree without `Starred` nodes (names and constants being leaves) and every set of names bound by the query:
+    a node that PreTranslator marks external — and only such nodes are compiled and evaluated in the caller's scope — reads no
+    name bound by the query and holds no lambda. -/
+theorem C04_external_sound (ctx : List String) (n : Node) (hw : WF n = true) (he : (classify ctx n).ext = true) :
+    usesBound ctx n = false :=
+  ext_sound ctx n hw he
+
+open PonyVerif.Model.PreTrans in
+/-- `a + f(b)` with `p` bound: the whole expression is external, and it is the one member of the externals -/
+example : externals ["p"] (.mk .other 0 [] (.cons (.mk .nameLoad 1 ["a"] .nil) (.cons (.mk .other 2 []
+    (.cons (.mk .nameLoad 3 ["f"] .nil) (.cons (.mk .nameLoad 4 ["b"] .nil) .nil))) .nil))) = [0] := by decide
+
+open PonyVerif.Model.PreTrans in
+/-- without the guard the statement is false: `postStarred` sets `external = True` whatever the operand is, so `*p` with the
+    query variable `p` is external (on the real code the evaluation then raises NameError — loud; replayed every run) -/
+theorem C04_external_sound_full_false :
+    ¬ (∀ (ctx : List String) (n : Node), (classify ctx n).ext = true → usesBound ctx n = false) := by
+  intro h
+  have := h ["p"] (.mk .starred 0 [] (.cons (.mk .nameLoad 1 ["p"] .nil) .nil)) (by decide)
+  revert this; decide
 
 end PonyVerif.Props.C04
